@@ -185,6 +185,10 @@ func buildBaseVal(p *pipe, l *logger) core.ZodType[string] {
 	for pos, c := range p.cs {
 		pos, c := pos, c
 		m := msg(p.tag, pos)
+		prev := s
+		// after this step: a decoy sibling is derived from the step's parent. Deriving must not change the
+		// chain's schema (a check slice shared between parent and child would let the decoy take the child's slot).
+		defer func() { _ = prev.StartsWith("\x00decoy", "decoy") }()
 		switch c.kind {
 		case "min":
 			s = s.Min(c.n, m)
@@ -235,6 +239,10 @@ func buildBasePtr(p *pipe, l *logger) core.ZodType[*string] {
 	for pos, c := range p.cs {
 		pos, c := pos, c
 		m := msg(p.tag, pos)
+		prev := s
+		// after this step: a decoy sibling is derived from the step's parent. Deriving must not change the
+		// chain's schema (a check slice shared between parent and child would let the decoy take the child's slot).
+		defer func() { _ = prev.StartsWith("\x00decoy", "decoy") }()
 		switch c.kind {
 		case "min":
 			s = s.Min(c.n, m)
